@@ -515,9 +515,14 @@ def rule_finding_owns_rule(ctx, rep, rule_id="R-FINDING-OWNS-RULE"):
             continue
         for a in walk_no_nested(fn.node):
             if isinstance(a, (ast.Assign, ast.AugAssign)):
+                flat = []
                 for t in (a.targets if isinstance(a, ast.Assign) else [a.target]):
+                    # `finding.rule.name, finding.rule.url = ...` assigns both attributes: tuple targets are flattened
+                    flat.extend(x for x in ast.walk(t) if isinstance(x, ast.Attribute) and isinstance(x.ctx, ast.Store)) if isinstance(t, (ast.Tuple, ast.List)) else flat.append(t)
+                for t in flat:
                     if isinstance(t, ast.Attribute) and isinstance(t.value, ast.Attribute) and t.value.attr == "rule":
                         mutators.append((fn, a))
+                        break
             if isinstance(a, ast.Call) and call_name(a) == "setattr" and a.args and isinstance(a.args[0], ast.Attribute) and a.args[0].attr == "rule":
                 mutators.append((fn, a))
     n = 0
